@@ -80,7 +80,7 @@ Case(t, v, x, table) ==
              effect |-> Allowed(t, v, x, table)]
 
 Tables == {T \in SUBSET Catalogue : Cardinality(T) <= 4 /\ \A p \in Peers : [dst |-> p, nh |-> p, path |-> <<0, p>>] \in T \/ Cardinality(T) <= 2}
-Next == \E t \in Types, v \in Variants, x \in Routers, table \in Tables : Case(t, v, x, table)
+Next == phase = "start" /\ \E t \in Types, v \in Variants, x \in Routers, table \in Tables : Case(t, v, x, table)
 Spec == Init /\ [][Next]_vars
 
 (* Properties (C07). *)
